@@ -6,9 +6,11 @@
 package c12
 
 import (
+	"bufio"
 	"bytes"
 	"encoding/json"
 	"fmt"
+	"io"
 	"math/rand"
 	"net"
 	"time"
@@ -30,7 +32,7 @@ func init() {
 			"at every offset and payload prefetched beyond 4 KiB): oracle: sink bytes == payload exactly; RemoteAddr/LocalAddr, {l4.conn.*} placeholders and the remote_ip matcher see the declared addresses " +
 			"(LOCAL/UNKNOWN: the real peer's); peers outside the allow list get the stream untouched; a header the handler does not accept must end the connection without any handler. " +
 			"sender case = proxy handler with proxy_protocol v1|v2 to a harness upstream, plain or behind a receiving proxy_protocol handler: an independent parser must find exactly one header of the configured " +
-			"version with the client's effective addresses, immediately followed by the client's stream. non-trivial = header accepted or sent; distinct = hash(all case parameters). a quarter of the sender cases run while another proxy handler for the same upstream addresses (with the other version, or no header) is alive",
+			"version with the client's effective addresses, immediately followed by the client's stream. non-trivial = header accepted or sent; distinct = hash(all case parameters). a quarter of the sender cases run while another proxy handler for the same upstream addresses (with the other version, or no header) is alive. one long-lived sender session per header version: exchange, six seconds of silence, exchange again",
 		Assumptions: []string{
 			"the PROXY library in use rejects v2 headers with TLVs and padding; such cases are counted as 'rejected' and only checked for failing closed",
 			"unix-family addresses are exercised on the sender side only",
@@ -125,6 +127,12 @@ func run(c *fw.Ctx) {
 		return
 	}
 	defer up.Close()
+	if c.Shard < 2 {
+		// (runs beside the other cases; it sleeps most of the time)
+		ll := make(chan struct{})
+		go longLived(c, []string{"v1", "v2"}[c.Shard], ll)
+		defer func() { <-ll }()
+	}
 	for i := 0; i < n; i++ {
 		if !c.Mine(i) {
 			continue
@@ -564,6 +572,16 @@ func clip(b []byte, n int) []byte {
 
 // replay re-runs the case with the recorded index and seed (cases are a pure function of both).
 func replay(c *fw.Ctx, raw json.RawMessage) {
+	var ll struct {
+		Kind    string `json:"kind"`
+		Version string `json:"version"`
+	}
+	if json.Unmarshal(raw, &ll) == nil && ll.Kind == "long-lived" {
+		hmods.Quiet(c.OutDir + "/caddyhome")
+		done := make(chan struct{})
+		longLived(c, ll.Version, done)
+		return
+	}
 	var w struct {
 		Case *Case `json:"case"`
 	}
@@ -585,4 +603,78 @@ func replay(c *fw.Ctx, raw json.RawMessage) {
 	} else {
 		sendCase(c, r, i, up)
 	}
+}
+
+// longLived: one proxied connection behind a proxy handler that sends a PROXY header stays in use for seven seconds. The
+// upstream answers every line; after a silence of six seconds both directions still work and no side has seen end-of-
+// stream (whatever deadline guarded the header's transmission is gone once the header is out).
+func longLived(c *fw.Ctx, version string, done chan<- struct{}) {
+	defer close(done)
+	up, err := drive.NewUpstream("tcp", "", nil, func(uc *drive.UpConn) {
+		defer uc.Conn.Close()
+		br := bufio.NewReader(uc.Conn)
+		if version == "v1" {
+			if _, err := br.ReadString('\n'); err != nil { // the header line
+				return
+			}
+		} else {
+			hdr := make([]byte, 16)
+			if _, err := io.ReadFull(br, hdr); err != nil {
+				return
+			}
+			if _, err := io.CopyN(io.Discard, br, int64(hdr[14])<<8|int64(hdr[15])); err != nil {
+				return
+			}
+		}
+		for {
+			line, err := br.ReadString('\n')
+			if err != nil {
+				return
+			}
+			if _, err := uc.Conn.Write([]byte("echo:" + line)); err != nil {
+				return
+			}
+		}
+	})
+	if err != nil {
+		c.Inconclusive("long-lived: cannot start the upstream")
+		return
+	}
+	defer up.Close()
+	routes := drive.J([]any{map[string]any{"handle": []any{map[string]any{"handler": "proxy", "proxy_protocol": version, "upstreams": []any{map[string]any{"dial": []string{up.Addr}}}}}}})
+	app, err := drive.StartApp(routes, "20s")
+	if err != nil {
+		c.Violation("C12 config rejected", err.Error(), routes)
+		return
+	}
+	defer app.Stop()
+	client, _ := app.Dial("c12-long-" + version)
+	defer client.Close()
+	br := bufio.NewReader(client)
+	exchange := func(msg string) string {
+		_ = client.SetReadDeadline(time.Now().Add(10 * time.Second))
+		if _, err := client.Write([]byte(msg + "\n")); err != nil {
+			return "write: " + err.Error()
+		}
+		got, err := br.ReadString('\n')
+		if err != nil {
+			return fmt.Sprintf("read %q: %v", got, err)
+		}
+		if got != "echo:"+msg+"\n" {
+			return fmt.Sprintf("got %q", got)
+		}
+		return ""
+	}
+	w := map[string]any{"kind": "long-lived", "version": version}
+	if e := exchange("first"); e != "" {
+		c.Violation("C12 send long-lived session: first exchange fails ["+version+"]", e, w)
+		return
+	}
+	time.Sleep(6 * time.Second)
+	if e := exchange("after six seconds"); e != "" {
+		c.Violation("C12 send long-lived session: the connection does not work any more six seconds after the header was sent ["+version+"]",
+			"after a silence of six seconds the client's line is not answered through the proxy: "+e, w)
+	}
+	c.Obs("long_lived_sessions", 1)
+	c.Case(fw.Hash("long-lived", version), true, func() any { return w })
 }
